@@ -24,7 +24,7 @@ EXHAUSTIVE_NOTE = ("subspace equality Sol = W is decided completely for each of 
                    "unchanged + a minimal sufficient set accepted => equal dimension); subsets and values are sampled")
 RULE = ("nine systems x {basis vectors of W and of its complement (complete), random tensors in W with 1-8 rows, "
         "sufficient subsets = greedy minimal sufficient set over a Hypothesis-drawn order of the 21 components plus 0-3 "
-        "extra columns}; non-trivial = system != triclinic, subset != all 21 and all independent parameters non-zero; "
+        "extra columns; a third of the tables with independent parameters of 1e-7..1e-4 next to ones of order 100}; non-trivial = system != triclinic, subset != all 21 and all independent parameters non-zero; "
         "distinct by (system, subset, seed, rows)")
 ASSUMPTIONS = [
     "standard setting: principal axis z, two-fold axis x where present, unique axis y for monoclinic",
@@ -168,7 +168,8 @@ def fill_cases(draw):
     seed = draw(st.integers(0, 2 ** 32 - 1))
     zero_some = draw(st.booleans())
     return {"system": system, "order": list(order), "extra": extra, "nrows": nrows, "seed": seed, "zero_some": zero_some,
-            "zero_one_row": draw(st.booleans()), "index": draw(st.sampled_from(["default", "default", "reversed", "offset", "float"]))}
+            "zero_one_row": draw(st.booleans()), "index": draw(st.sampled_from(["default", "default", "reversed", "offset", "float"])),
+            "tiny_some": draw(st.sampled_from([False, False, True]))}
 
 
 def subset_from_order(system, order, extra):
@@ -189,7 +190,7 @@ def subset_from_order(system, order, extra):
 def fill_oracle(ctx, c):
     system = c["system"]
     rng = np.random.default_rng(c["seed"])
-    w = random_invariant(system, rng, c["nrows"], zero_some=c["zero_some"], zero_one_row=c.get("zero_one_row", False))
+    w = random_invariant(system, rng, c["nrows"], zero_some=c["zero_some"], zero_one_row=c.get("zero_one_row", False), tiny_some=c.get("tiny_some", False))
     keys = subset_from_order(system, c["order"], c["extra"])
     if not is_sufficient(system, keys):
         raise AssertionError("reference: generated subset is not sufficient")
@@ -214,7 +215,7 @@ def sub_fill(ctx):
         ctx.case({"system": c["system"], "subset": ["%d%d" % k for k in keys], "nrows": c["nrows"], "seed": c["seed"]}, nt,
                  classes=[c["system"], "extra=%d" % c["extra"], "zeroed-parameters" if c["zero_some"] else "all-parameters-nonzero",
                           "parameter-zero-at-one-volume" if c.get("zero_one_row") and c["nrows"] > 1 else "no-single-row-zero",
-                          "row-index-" + c.get("index", "default")])
+                          "row-index-" + c.get("index", "default"), "tiny-components" if c.get("tiny_some") else "no-tiny-components"])
 
     ctx.run_given(body, fill_cases(), max_examples=ctx.n(9 * 120, 9 * 5000), shrink=True)
 
